@@ -176,3 +176,87 @@ example : stepLine b!"4.8.0" b!"2031" b!"SecComponentSignature \"OWASP_CRS/4.0.0
   decide +kernel
 
 end Crs.Props
+
+namespace Crs.Props
+open Crs Crs.Copyright
+
+/-! ### the copyright line -/
+
+theorem sub3_shape (y r : Bytes) : sub3 y (p3 ++ r) = p3 ++ r ∨ sub3 y (p3 ++ r) = p3 ++ (y ++ r.drop 4) := by
+  unfold sub3
+  rw [stripPrefix?_append]
+  simp only
+  split
+  · exact .inr (by simp [List.append_assoc])
+  · exact .inl rfl
+
+theorem year_noChar (y : Bytes) (hy : isYear4 y = true) (c : Char) (hc : isDigit c = false) : c ∉ y := by
+  intro hm
+  simp only [isYear4, Bool.and_eq_true, List.all_eq_true] at hy
+  have := hy.2 c hm
+  rw [hc] at this
+  exact absurd this (by simp)
+
+/-- on a line that begins like the copyright line and carries no `=` and no `'`, only the year pattern acts -/
+theorem stepLine_year (v y r : Bytes) (hy : isYear4 y = true) (he : '=' ∉ r) (hs : '\'' ∉ r) :
+    stepLine v y (p3 ++ r) = sub3 y (p3 ++ r) := by
+  have hne : '=' ∉ p3 ++ r := by
+    intro hm; rcases List.mem_append.mp hm with h | h
+    · exact absurd h (by decide)
+    · exact he h
+  have h1 : sub1 v (p3 ++ r) = p3 ++ r := by
+    unfold sub1
+    have a : stripPrefix? p1a (p3 ++ r) = none := by simp [p3, p1a, stripPrefix?]
+    have b : stripPrefix? p1b (p3 ++ r) = none := by simp [p3, p1b, stripPrefix?]
+    rw [a, b]
+  have h2 : sub2 (digitsOf v) (p3 ++ r) = p3 ++ r := by
+    unfold sub2
+    rw [splitCh_noSep '=' _ hne]
+    simp [sub2Fields, joinCh]
+  -- whatever the year pattern does, the result begins with the prefix and has no quote
+  have hshape : ∃ r', sub3 y (p3 ++ r) = p3 ++ r' ∧ '\'' ∉ r' := by
+    rcases sub3_shape y r with h | h
+    · exact ⟨r, h, hs⟩
+    · refine ⟨y ++ r.drop 4, h, ?_⟩
+      intro hm; rcases List.mem_append.mp hm with h' | h'
+      · exact year_noChar y hy '\'' (by decide) h'
+      · exact hs (List.mem_of_mem_drop h')
+  obtain ⟨r', hr', hq'⟩ := hshape
+  have hnq : '\'' ∉ p3 ++ r' := by
+    intro hm; rcases List.mem_append.mp hm with h | h
+    · exact absurd h (by decide)
+    · exact hq' h
+  have h4 : sub4 v (p3 ++ r') = p3 ++ r' := by
+    unfold sub4
+    rw [splitCh_noSep '\'' _ hnq]
+    simp [sub4Fields, joinCh]
+  have h5 : sub5 v (p3 ++ r') = p3 ++ r' := by
+    unfold sub5
+    have : stripPrefix? p5 (p3 ++ r') = none := by simp [p3, p5, stripPrefix?]
+    rw [this]
+  unfold stepLine
+  rw [h1, h2, hr', h4, h5]
+
+/-- **C14 (copyright line: the last invocation wins, for the composed step).** For four-digit years and a line that begins
+    `# Copyright (c) 2021-` and carries no `=` and no `'`: a second run after a first gives what the second alone gives. -/
+theorem C14_year_line_composed (v1 y1 v2 y2 r : Bytes) (h1 : isYear4 y1 = true) (h2 : isYear4 y2 = true)
+    (he : '=' ∉ r) (hs : '\'' ∉ r) :
+    stepLine v2 y2 (stepLine v1 y1 (p3 ++ r)) = stepLine v2 y2 (p3 ++ r) := by
+  rw [stepLine_year v1 y1 r h1 he hs, stepLine_year v2 y2 r h2 he hs]
+  rcases sub3_shape y1 r with h | h
+  · rw [h, stepLine_year v2 y2 r h2 he hs]
+  · have he' : '=' ∉ y1 ++ r.drop 4 := by
+      intro hm; rcases List.mem_append.mp hm with h' | h'
+      · exact year_noChar y1 h1 '=' (by decide) h'
+      · exact he (List.mem_of_mem_drop h')
+    have hs' : '\'' ∉ y1 ++ r.drop 4 := by
+      intro hm; rcases List.mem_append.mp hm with h' | h'
+      · exact year_noChar y1 h1 '\'' (by decide) h'
+      · exact hs (List.mem_of_mem_drop h')
+    rw [h, stepLine_year v2 y2 _ h2 he' hs', ← h]
+    exact C14_year_last_wins y1 y2 (p3 ++ r) h1
+
+example : stepLine b!"4.8.0" b!"2031" b!"# Copyright (c) 2021-2024 CRS project. All rights reserved." =
+    b!"# Copyright (c) 2021-2031 CRS project. All rights reserved." := by decide +kernel
+
+end Crs.Props
